@@ -34,6 +34,13 @@ func min[T constraints.Ordered](a, b T) T {
 	return b
 }
 
+func max[T constraints.Ordered](a, b T) T {
+	if a > b {
+		return a
+	}
+	return b
+}
+
 func (p *Processor) NotifyRecharge(ueId string, rg int32) {
 	var reauthorizationDetails []models.ReauthorizationDetails
 
@@ -578,7 +585,8 @@ func sessionChargingReservation(
 			usedQuota := uint64(totalUsedUnit * ue.UnitCost[rg])
 			requestedQuota = uint64(uint32(unitUsage.RequestedUnit.TotalVolume) * ue.UnitCost[rg])
 			ue.ReservedQuota[rg] -= int64(usedQuota)
-			NeedReserveQuota := !(ue.ReservedQuota[rg] > 0)
+			// Top the reservation up whenever it does not cover the requested quota
+			NeedReserveQuota := ue.ReservedQuota[rg] < int64(requestedQuota)
 
 			if NeedReserveQuota {
 				reserveQuota := -uint64(ue.ReservedQuota[rg]) + requestedQuota
@@ -612,9 +620,15 @@ func sessionChargingReservation(
 				}
 			}
 
+			// Only the money actually reserved can be granted
+			grantQuota := requestedQuota
+			if ue.ReservedQuota[rg] < int64(grantQuota) {
+				grantQuota = uint64(max(ue.ReservedQuota[rg], 0))
+			}
+
 			sur.ServiceRating = &charging_datatype.ServiceRating{
 				ServiceIdentifier: datatype.Unsigned32(rg),
-				MonetaryQuota:     datatype.Unsigned32(requestedQuota),
+				MonetaryQuota:     datatype.Unsigned32(grantQuota),
 				RequestSubType:    charging_datatype.REQ_SUBTYPE_RESERVE,
 			}
 
